@@ -17,7 +17,8 @@ RULE = ('convert: Hypothesis draws (kind, value in +-[1e-12,1e12] incl. ints and
         'differ by a relative gap >= 1e-9, or in sign, or zero vs non-zero) or SAME (second obtained from the '
         'first by 1-3 library conversions, ending in another unit); all six operators are evaluated with '
         'either operand on the left and compared with the order of the exact SI magnitudes; non-trivial = '
-        'operands in different units. Distinct = distinct canonical JSON of the case.')
+        'operands in different units. sequences: chains of 2..8 conversions (copy and in place) on one object; the SI '
+        'magnitude must be invariant at every step. Distinct = distinct canonical JSON of the case.')
 ASSUMPTIONS = [
     'SI unit definitions in vp/oracle/units_si.py (written from the SI brochure, pi to 60 digits) are correct',
     'pairs closer than 1e-9 relative but not produced by conversions are unconstrained ("rounding" is left to '
@@ -216,7 +217,62 @@ def s_compare(draw):
     return case
 
 
+def check_sequence(case) -> Result:
+    """a chain of conversions (copy and in place) applied to one object: the SI magnitude is invariant, a copying
+    conversion never touches its receiver, an in-place one returns the receiver"""
+    res = Result()
+    kind, v, u = case['kind'], case['value'], case['unit']
+    cls = U.cls(kind)
+    units = list(U.UNITS[kind])
+    obj = cls(v, u)
+    si0 = U.si_exact(kind, v, u)
+    n_inplace = 0
+    for n, step in enumerate(case['steps']):
+        target = units[step['unit_ix'] % len(units)]
+        before = (obj.value, obj.unit)
+        r = obj.to(target, inplace=step['inplace'])
+        tol = (n + 2) * CONV_ULP
+        if step['inplace']:
+            n_inplace += 1
+            if r is not obj:
+                res.bad(f'C05/sequence/{kind}/inplace-not-self', f'{case}: step {n} did not return the receiver')
+                break
+        else:
+            if (obj.value, obj.unit) != before:
+                res.bad(f'C05/sequence/{kind}/receiver-mutated', f'{case}: step {n} (copy) changed the receiver '
+                        f'{before} -> {(obj.value, obj.unit)}')
+                break
+        if r.unit != target or type(r) is not cls:
+            res.bad(f'C05/sequence/{kind}/label', f'{case}: step {n} -> {r!r}')
+            break
+        got = float(U.si_exact(kind, r.value, r.unit))
+        if U.ulps(got, float(si0)) > tol:
+            res.bad(f'C05/sequence/{kind}/magnitude-drifts',
+                    f'{case}: after step {n} ({"in place" if step["inplace"] else "copy"} to {target}) the object is '
+                    f'{r!r} = {got!r} SI, the original magnitude is {float(si0)!r} SI')
+            break
+        if step.get('continue_on_copy') and not step['inplace']:
+            obj = r
+    res.nontrivial = v != 0 and len(case['steps']) >= 3 and n_inplace >= 1
+    res.classes = (f'kind:{kind}', f'steps:{min(len(case["steps"]), 6)}')
+    return res
+
+
+@st.composite
+def s_sequence(draw):
+    kind = draw(st.sampled_from(U.KINDS))
+    return {'kind': kind, 'value': draw(s_value(kind)), 'unit': draw(st.sampled_from(list(U.UNITS[kind]))),
+            'steps': draw(st.lists(st.fixed_dictionaries({'unit_ix': st.integers(0, 16), 'inplace': st.booleans(),
+                                                          'continue_on_copy': st.booleans()}), min_size=2, max_size=8))}
+
+
 def parts(tier):
+    seq = Part('sequences', check_sequence, strategy=s_sequence(), examples=1500 if tier == 'quick' else 30000,
+               shards=2 if tier == 'quick' else 4)
+    return _parts(tier) + [seq]
+
+
+def _parts(tier):
     if tier == 'quick':
         return [Part('convert', check_convert, strategy=s_convert(), examples=150, shards=4),
                 Part('compare', check_compare, strategy=s_compare(), examples=2500, shards=4)]
